@@ -1,7 +1,9 @@
-module verif/harness
+module gonum.org/v1/gonum/verifharness
 
 go 1.23.0
 
 require gonum.org/v1/gonum v0.0.0
+
+require golang.org/x/tools v0.26.0 // indirect
 
 replace gonum.org/v1/gonum => /repo
